@@ -293,9 +293,11 @@ func prettyPrintCompact(ps *PrintState, s Node, i int) bool {
 		ps.Print(";")
 		return false
 	}
-	if t := firstToken(s); i > 0 && t != nil && t.Type() == token.LPAREN && ps.last != "}" {
-		_, _ = ps.Out.Write([]byte{' '}) // a (b) is not the call a(b)
+	if t := firstToken(s); i > 0 && t != nil && (t.Type() == token.LPAREN || t.Type() == token.LBRACKET) {
+		// a (b) is not the call a(b), a [b] is not the index a[b].
+		_, _ = ps.Out.Write([]byte{' '})
 		ps.last = " "
+		return false
 	}
 	_, prevIsExpr := ps.prev.(*InfixExpression)
 	_, curIsArray := s.(*ArrayLiteral)
